@@ -621,7 +621,7 @@ CONFIG = {
             "not yet covered (daemon level): detection of a conflicting response while probing and after announcing",
             "not yet covered (daemon level): the renamed service is probed again, announced, reported as NameChange and answered under the new name only (names_consistent, conflict_contract)",
             "not yet covered (daemon level): restart of probing one second after a lost tiebreak (timer), two_daemons_converge",
-            "clause 'the new name is still encodable': full statement false of the code (D13, D14, D15, D15b are known findings); proved: rename_keeps_name_encodable_partial",
+            "clause 'the new name is still encodable': full statement false of the code (D13, D15, D15b are known findings); proved: rename_keeps_name_encodable_partial",
         ],
         rule="exhaustive: rec-compare on all ordered pairs of a 46-record alphabet (every RDATA kind, neighbouring values, both "
              "classes, cache-flush bit, type numbers that belong to another kind); tiebreak on all ordered pairs of record lists of "
@@ -642,14 +642,14 @@ CONFIG = {
                    "renaming, never return an error and panic only on the u32 overflow at 4294967295 (name_change_spec, hostname_change_spec, "
                    "*_counts_up, rename_panics_only_on_overflow); the first part grows by at most 4 / 2 bytes (rename_label_bound). The full "
                    "clause 'the new name is still encodable' is false of the code (rename_keeps_name_encodable_full_is_false; known findings "
-                   "D13, D14, D15, D15b); proved instead: rename_keeps_name_encodable_partial (first label without escapes, <= 59 / 61 bytes, "
+                   "D13, D15, D15b); proved instead: rename_keeps_name_encodable_partial (first label without escapes, <= 59 / 61 bytes, "
                    "name <= 251 / 253 bytes). The model is compared with DnsRecordExt::compare, Probe::tiebreaking (through the real encoder and "
                    "decoder, from both probers' sides), name_change, hostname_change, the check_* functions and parse_escaped_name of the working "
                    "tree on every run, and the theorems' conclusions are evaluated on the real outputs. The daemon-level clauses of C08 (see "
                    "coverage.partial) are not covered yet.",
         level_note="Trusted: Lean kernel; axioms propext, Classical.choice, Quot.sound only; hand-written model tied to the code by differential "
                    "testing of this run's inputs; the order of same-type records inside a probe (binary_search_by leaves it open) is read from "
-                   "the implementation. Known findings D13, D14, D15, D15b are reproduced on every run and listed, not suppressed silently.",
+                   "the implementation. Known findings D13, D15, D15b are reproduced on every run and listed, not suppressed silently.",
         assumptions=[
             "the order insert_record gives records of equal (class, type) is unspecified by binary_search_by; it is read from the implementation "
             "after checking that it is a sorted permutation, and the theorems hold for every such order",
@@ -1028,6 +1028,66 @@ CONFIG["C14"] = dict(
     assumptions=["services count as announced when the daemon's own Announce event was seen"],
 )
 
+def _c15_nontrivial(r):
+    if r["op"].startswith("sim"):
+        return _sim_nontrivial(r)
+    return True
+
+
+def _c15_extra(recs):
+    sims = [r for r in recs if r["op"].startswith("sim")]
+    calls = [r for r in recs if r["op"].startswith("c15-call")]
+    d = _sim_extra(sims)
+    kinds = {}
+    for r in calls:
+        k = r["op"].split(" ")[1] + ":" + r["impl"].split(" ")[0]
+        kinds[k] = kinds.get(k, 0) + 1
+    cut = sum(1 for r in calls if " cut-label " in r["op"] and len(r["op"].split(" ")[2]) // 2 + 1 != len(r["impl"].split(" ")[-1]) // 2)
+    d.update(function_calls=len(calls), function_call_outcomes=kinds, labels_actually_cut=cut,
+             rename_events_observed=sum(r["impl"].count(" namechange ") for r in sims),
+             error_events_observed=sum(r["impl"].count(" error ") for r in sims),
+             api_calls_refused=sum(r["impl"].count(" msg ") + r["impl"].count(" err") for r in sims))
+    return d
+
+
+CONFIG["C15"] = dict(
+    modules=["Mdns.Props.C15"],
+    model_files="Mdns/Model/Names.lean, Mdns/Model/Label.lean (functions); Mdns/Driver/C15.lean (verdict on histories)",
+    nontrivial=_c15_nontrivial,
+    extra_evidence=_c15_extra,
+    rule="(a) `c15-call`: the four name checks, name_change / hostname_change, split_sub_domain, the escaped-name parser and the "
+         "label writer of the encoder (DnsOutPacket::write_utf8, reached through an encoded question) called in-process on "
+         "hostile strings: empty, 63/64/255-byte labels, lengths 60..70 and 250..260, 1-4-byte UTF-8 characters astride the 63 "
+         "byte limit, dots, backslashes, parentheses, counters 4294967294 / 4294967295 / 99999999999, doubled and missing "
+         "suffixes - output compared with the Lean model of each function; (b) `sim C15` histories on real daemon threads "
+         "under the simulation seams: every public function (browse, browse_cache, resolve_hostname with huge time-outs, "
+         "register with hostile type / instance / host / TXT up to 70 kB / addresses, unregister, stop_*, verify, "
+         "set_ip_check_interval, set_service_name_len_max, enable/disable_interface, accept_unsolicited, monitor) with hostile "
+         "arguments followed by up to 10 min of virtual time; hostile packets (random bytes, mutated well-formed responses, "
+         "labels ending in a backslash or containing dots, 63-byte labels that grow when re-read, pointer tricks, 9000-byte "
+         "datagrams, answers for names the daemon browses / resolves / has registered) against a daemon with active browses, "
+         "resolvers and registrations; conflicts that force renames of instances and hosts with 59..63-byte first labels, "
+         "names of 250..255 bytes and counters next to u32::MAX. Every history ends with status() and get_metrics(). "
+         "Non-trivial = call executed / history with packets and events. Distinct = distinct op lines.",
+    level_text="Function level: checks_never_panic, rename_chain_total (any number of renames of any string return a name), "
+               "cutLen_le / cutLen_boundary / writeUtf8_shape / short_label_unchanged / cut_loses_at_most_three (the label "
+               "writer emits <= 63 bytes, stops at a character boundary, never underflows) are Lean theorems about models with "
+               "an explicit panic outcome at every index, slice, arithmetic and assert of the Rust; the models are compared "
+               "with the code on every generated string. Daemon level: monitorCrash_none_iff proves that the verdict function "
+               "accepts a history exactly when no calling thread panicked, no daemon thread ended unasked and status / "
+               "get_metrics were answered after the input; the verdict is evaluated in Lean on the observations of the real "
+               "threads (panics of API calls are caught per call in the harness, the end of a daemon thread is observed by "
+               "the simulation driver). The decoder half (no packet panics or loops DnsIncoming::new) is C01's theorems.",
+    level_note="Trusted: Lean kernel; allowed axioms only; hand-written function models tied by differential comparison; simulation "
+               "seams; panic = Rust unwind observed by catch_unwind / thread join (an abort would kill the worker and be "
+               "reported as a crash of the op). PARTIAL: the daemon as a whole has no panic-free theorem - Lean proves the "
+               "functions listed; for everything else in service_daemon.rs the property is decided by monitoring generated "
+               "histories, which is a search, not a proof.",
+    partial=["daemon-level clause decided by the verdict function on generated histories (no model of the whole daemon with panic outcomes)",
+             "ServiceInfo::new / AsIpAddrs / TXT conversions: exercised through register histories and C16's model, no separate no-panic theorem here"],
+    assumptions=["a caller panic is a Rust unwind (catch_unwind); allocation failure aborts are outside the property"],
+)
+
 # C19 = component level (delay arithmetic, `backoff` ops) + daemon level (scheduler model, `sim` histories)
 _c19_comp = CONFIG["C19"]
 CONFIG["C19"] = dict(
@@ -1233,6 +1293,56 @@ CONFIG["C06"] = dict(
                "host name as registered (renames: C08).",
     partial=["known-answer suppression is the code's `matches` (same letter case and cache-flush bit, D18 under C10)"],
     assumptions=_RESP_ASSUME,
+)
+
+CONFIG["C04"] = dict(
+    modules=["Mdns.Props.C04"],
+    model_files="Mdns/Model/Client.lean, Mdns/Model/Cache.lean, Mdns/Model/Record.lean, Mdns/Model/Decode.lean",
+    nontrivial=_sim_nontrivial,
+    extra_evidence=_sim_extra,
+    rule=_CLIENT_RULE,
+    level_text="Lean theorems on the client model: followup_queued (an update touching an instance with a usable PTR of a browsed "
+               "type that cannot be resolved - only the PTR arrived, or SRV without address - queues Resolve(inst,1) at now+500 "
+               "with a timer and marks it pending), followup_step (executing Resolve(inst,k) sends exactly the missing question: "
+               "ANY inst without SRV entry, A+AAAA of the SRV target without address entry, nothing otherwise - and queues try "
+               "k+1 500 ms ahead iff k < 3), resolved_when_complete / resolvedComplete_partial (an update touching an instance "
+               "whose PTR, SRV and address are usable emits ServiceResolved on the browse channel in that very step), touched_by "
+               "(which records count as an update). The completeness invariant over histories is stated "
+               "(ResolvedComplete_full) and REFUTED on a concrete history (resolvedComplete_full_false: an address first seen as "
+               "a goodbye and re-announced within the second only refreshes the cached entry, nothing re-resolves the "
+               "instance) - the same history reproduces on the real daemon (corpus-candidates/C04). The model is compared "
+               "exactly with the real daemon on every generated history (any partition / order / duplication of the record set, "
+               "foreign mixes, follow-ups answered after 1-3 tries); the monitor ok_C04 decides completeness by the next step "
+               "and the three follow-up queries on the real trace.",
+    level_note=_CLIENT_NOTE,
+    partial=["ResolvedComplete is proved as a step contract only; as an invariant it is false of model and code (re-delivered, "
+             "not new, records are not updates): resolvedComplete_full_false",
+             "the +500/+1000/+1500 schedule is a step contract plus a `decide` example; the timely-scheduler composition is C12's"],
+    assumptions=_CLIENT_ASSUME,
+)
+
+CONFIG["C05"] = dict(
+    modules=["Mdns.Props.C05"],
+    model_files="Mdns/Model/Client.lean, Mdns/Model/Cache.lean, Mdns/Model/Record.lean, Mdns/Model/Decode.lean",
+    nontrivial=_sim_nontrivial,
+    extra_evidence=_sim_extra,
+    rule=_CLIENT_RULE,
+    level_text="Lean theorems on the client model, for ANY history: removed_sound / removed_sound_run (every ServiceRemoved(ty, "
+               "inst) emitted at `now` has one of the two reasons the code has, on a cache justified by the delivered records: "
+               "a PTR entry ty->inst with expires <= now or all SRV entries of inst expired (eviction), or inst had been "
+               "resolved, a usable PTR still points to it and it can no longer be resolved - no usable SRV or no usable address "
+               "of its host), not_evicted_while_live / not_unresolved_while_live (the contrapositives: never while PTR, SRV and "
+               "address are live), goodbye_expiry (a goodbye sets the cached copy's expiry to exactly t+1000), removed_on_time "
+               "(the eviction step of an iteration at now >= expiry sends ServiceRemoved on the browse channel) and "
+               "not_removed_before, verify_deadline. The model is compared exactly with the real daemon on every generated "
+               "history (goodbyes of all or part of the set, duplicated, re-announced within the second, silent expiry, verify "
+               "1..10000 ms); the monitor ok_C05 derives due times from the delivered TTLs on the real trace.",
+    level_note=_CLIENT_NOTE,
+    partial=["removed_quiet (no ServiceResolved after ServiceRemoved without new records) is not proved: with several SRV records "
+             "of one instance the first usable SRV can change by expiry alone",
+             "timeliness is a step contract (the iteration at the expiry instant exists by C12's wake-up theorems, composed in "
+             "the monitor, not in Lean)"],
+    assumptions=_CLIENT_ASSUME,
 )
 
 # reasons for properties that are deliberately not claimed (default text in tools/mkmanifest.py)
